@@ -370,7 +370,24 @@ def parent_others(cls, parent):
     return [sp["others"](parent[i]) for i in range(len(parent))]
 
 
-def evaluate(entry, n, a, b, self_masked=False, rhs_full=False, self_strided=False, arg_strided=False):
+MEMBER_NAMES = ("x", "y", "z", "w", "r", "g", "b", "a", "min", "max")
+
+
+def member_views(subj, cls):
+    """member accessors of the subject array whose array class is `cls` (V3fArray.x -> FloatArray, Box3fArray.max ->
+    V3fArray, QuatfArray.r -> FloatArray ...)"""
+    out = []
+    for nm in MEMBER_NAMES:
+        try:
+            v = getattr(subj, nm)
+        except Exception:
+            continue
+        if not callable(v) and type(v).__name__ == cls:
+            out.append(nm)
+    return out
+
+
+def evaluate(entry, n, a, b, self_masked=False, rhs_full=False, self_strided=False, arg_strided=False, arg_member=False):
     """rhs_full: (masked subject, in-place operator) give the array argument the UNMASKED length of the subject's
     base array (2n): element i of the view then pairs with argument[raw index of i] = argument[2i]"""
     CTX["ab"] = (a, b)
@@ -397,6 +414,17 @@ def evaluate(entry, n, a, b, self_masked=False, rhs_full=False, self_strided=Fal
         subj = scalar_instance(what, a, b)
         self_elems = None
         fn = getattr(subj, entry["name"])
+    member_used = None
+    if arg_member and tag == "method" and not self_masked and not self_strided:
+        # an array argument that is a MEMBER VIEW OF THE SUBJECT (q.setAxisAngle(axis, q.r), v *= v.x): the two
+        # arrays overlap element by element; the result must be what a copy of that member would give
+        for j, k in enumerate(kinds):
+            if k.startswith("arr:"):
+                cands = member_views(subj, k[4:])
+                if cands:
+                    member_used = cands[(a + b + j) % len(cands)]
+                    args[j] = getattr(subj, member_used)
+                    break
     arg_elems = []
     for v, k in zip(args, kinds):
         if k.startswith(("arr:", "mask:")):
@@ -410,6 +438,7 @@ def evaluate(entry, n, a, b, self_masked=False, rhs_full=False, self_strided=Fal
     r = fn(*args)
     out = dict(result=snapshot(r) if r is not None and type(r).__name__.endswith("Array") else None,
                self_after=snapshot(subj) if subj is not None else None, before=before, raw=r)
+    out["member_used"] = member_used
     if strided_parent is not None:
         out["strided"] = True
         out["neighbours_intact"] = parent_others(what, strided_parent) == others_before
